@@ -1,11 +1,231 @@
 import NavisModel.Drv.Proto
-import NavisModel.Model.Forest
-/-! Extension commands for C12 (line protocol prefix `c12x.`). -/
+import NavisModel.Drv.Forest
+import NavisModel.Model.PruneExt
+/-! Extension commands for C12 (line protocol prefix `c12x.`): the pruning functions with their
+option handling (`Model/PruneExt.lean`) and the Lean-side checkers evaluated on navis' own output. -/
 namespace Navis.Drv.C12Ext
+open Navis.Forest Navis.Proto Navis.Drv.Forest Navis.PruneX
 
-def run (cmd _rest : String) : Option String :=
+def optInt (s : String) : Option (Option Int) := if s == "_" then some none else s.toInt?.map some
+
+def parseRat (a : String) : Option Rat :=
+  match a.splitOn "/" with
+  | [n, d] => do pure ((← n.toInt? : Int) / ((← d.toNat?) : Rat) : Rat)
+  | [n] => do pure ((← n.toInt? : Int) : Rat)
+  | _ => none
+
+def parseRec (s : String) : Option RecArg :=
+  if s == "b0" then some (.bool false) else if s == "b1" then some (.bool true)
+  else if s == "inf" then some .inf
+  else if s.startsWith "i" then (s.drop 1).toString.toInt?.map RecArg.int else none
+
+def parseMask (s : String) : Option MaskArg :=
+  if s == "-" then some .none
+  else match s.splitOn ":" with
+    | ["ids", l] => (intList? l).map MaskArg.ids
+    | ["bools", l] => (natList? l).map fun b => MaskArg.bools (b.map (· != 0))
+    | _ => none
+
+def parseOptMask (s : String) : Option (Option (List Int)) :=
+  if s == "-" then some none
+  else match s.splitOn ":" with
+    | ["ids", l] => (intList? l).map some
+    | _ => none
+
+def parseSelX (s : String) : Option SISelX :=
+  match s.splitOn ":" with
+  | ["int", k] => k.toInt?.map SISelX.int
+  | ["list", ks] => (intList? ks).map SISelX.list
+  | ["range", a, b, st] => do pure (SISelX.range (← a.toInt?) (← b.toInt?) (← st.toInt?))
+  | ["slice", a, b, st] => do pure (SISelX.slice (← optInt a) (← optInt b) (← st.toInt?))
+  | _ => none
+
+def parseNArg (s : String) : Option NArg :=
+  match s.splitOn ":" with
+  | ["int", k] => k.toInt?.map NArg.int
+  | ["slice", a, b, st] => do pure (NArg.slice (← optInt a) (← optInt b) (← st.toInt?))
+  | _ => none
+
+/-- `a:b,c:d` → pairs -/
+def parsePairs (s : String) : Option (List (Int × Int)) :=
+  let s := trim s
+  if s.isEmpty || s == "-" then some [] else
+  (s.splitOn ",").mapM fun tok => match tok.splitOn ":" with
+    | [a, b] => do pure ((← (trim a).toInt?), (← (trim b).toInt?))
+    | _ => none
+
+def showPairs (l : List (Int × Int)) : String := ",".intercalate (l.map fun p => s!"{p.1}:{p.2}")
+
+/-- `key=value` words -/
+def kv (ws : List String) (k : String) : Option String :=
+  ws.findSome? fun w => match w.splitOn "=" with
+    | [a, b] => if a == k then some b else none
+    | _ => none
+
+def parseSIOpts (s : String) : Option SIOpts := do
+  let ws := words s
+  let soma ← optInt ((kv ws "soma").getD "_")
+  let col ← match kv ws "col" with
+    | some c => (parsePairs c).map some
+    | none => some none
+  pure { rerootSoma := (kv ws "reroot").getD "1" == "1", soma := soma, force := (kv ws "force").getD "0" == "1",
+         col := col, relocate := (kv ws "reloc").getD "0" == "1" }
+
+def showExact (rows : List (Int × Int × Rat)) : String :=
+  let rows := rows.toArray.qsort (fun a b => a.1 < b.1) |>.toList
+  " ".intercalate (rows.map fun r => s!"{r.1}:{r.2.1}:{r.2.2.num}/{r.2.2.den}")
+
+def sections (s : String) : List String := (s.splitOn "|").map trim
+
+def run (cmd rest : String) : Option String :=
   match cmd with
   | "ping" => some "pong-c12x"
+  | "twigs" =>
+    -- size | rec | mask | table
+    match sections rest with
+    | [sz, rc, mk, tb] => do
+      let t ← parseTable tb
+      let sz ← sz.toNat?
+      let rc ← parseRec rc
+      let mk ← parseMask mk
+      match pruneTwigsX t (coordLen t) sz mk rc with
+      | some r => pure (showTopo r)
+      | none => pure "ERR"
+    | _ => none
+  | "twigsfc" =>
+    -- rootChains(0/1) size | rec | mask | table   (the navis-fastcore variant, for attribution only)
+    match sections rest with
+    | [a, rc, mk, tb] => do
+      let t ← parseTable tb
+      let rc ← parseRec rc
+      let mk ← parseMask mk
+      match words a with
+      | [rcn, sz] => do
+        let sz ← sz.toNat?
+        match maskIds t mk with
+        | some m => pure (showTopo (pruneTwigsFC (rcn == "1") t (coordLen t) sz m rc))
+        | none => pure "ERR"
+      | _ => none
+    | _ => none
+  | "exactm" =>
+    -- num/den | mask | table
+    match sections rest with
+    | [a, mk, tb] => do
+      let t ← parseTable tb
+      let size ← parseRat a
+      let mk ← parseOptMask mk
+      pure s!"{showExact (exactPruneM t (coordLen t) size mk)} # {showExact (exactPruneAW t (coordLen t) size mk)}"
+    | _ => none
+  | "inrange" =>
+    -- num/den | table  →  as-written in-range test vs height test, per node
+    match sections rest with
+    | [a, tb] => do
+      let t ← parseTable tb
+      let size ← parseRat a
+      let len := coordLen t
+      pure (" ".intercalate ((sortedInts (ids t)).map fun i =>
+        s!"{i}={b2s (inRangeAW t len size i)}{b2s (decide (((heightOf t len (t.length + 1) i : Nat) : Rat) ≤ size))}"))
+    | _ => none
+  | "bystrahler" =>
+    -- sel | opts | connectors | table
+    match sections rest with
+    | [sl, op, cn, tb] => do
+      let t ← parseTable tb
+      let sel ← parseSelX sl
+      let o ← parseSIOpts op
+      let cn ← parsePairs cn
+      match pruneByStrahlerX t o sel cn with
+      | some (r, c) => pure s!"{showTopo r} # {showPairs c}"
+      | none => pure "ERR"
+    | _ => none
+  | "conn" =>
+    -- kept | relocate | connectors | table   (connector table after a subset to `kept`)
+    match sections rest with
+    | [k, rl, cn, tb] => do
+      let t ← parseTable tb
+      let kept ← intList? k
+      let cn ← parsePairs cn
+      pure (showPairs (connAfter t kept (rl == "1") cn))
+    | _ => none
+  | "depth" =>
+    -- source|_  num/den | table
+    match sections rest with
+    | [a, tb] => do
+      let t ← parseTable tb
+      match words a with
+      | [s, d] => do
+        let s ← optInt s
+        let d ← parseRat d
+        match pruneAtDepthX .lt t (coordLen t) s d with
+        | some r => pure (showTopo r)
+        | none => pure "ERR"
+      | _ => none
+    | _ => none
+  | "longest" =>
+    -- n | reroot=0/1 soma=_/id fromroot=0/1 inverse=0/1 | table
+    -- from_root: one answer; otherwise one answer per admissible start, separated by " ## "
+    match sections rest with
+    | [ns, op, tb] => do
+      let t ← parseTable tb
+      let n ← parseNArg ns
+      let ws := words op
+      let soma ← optInt ((kv ws "soma").getD "_")
+      let o : LNOpts := { rerootSoma := (kv ws "reroot").getD "0" == "1", soma := soma,
+                          fromRoot := (kv ws "fromroot").getD "1" == "1" }
+      let inv := (kv ws "inverse").getD "0" == "1"
+      let len := coordLen t
+      let starts := if o.fromRoot then [0] else diamStarts t len
+      let outs := starts.map fun s => match longestNeuriteX t len o s n inv with
+        | some r => showTopo r
+        | none => "ERR"
+      pure (" ## ".intercalate outs)
+    | _ => none
+  | "diam" => do
+    let t ← parseTable rest
+    pure (showInts (diamStarts t (coordLen t)))
+  | "greedy" =>
+    -- segs | table   → greedy checker on the implementation's segment list, plus C05's checker
+    match sections rest with
+    | [sg, tb] => do
+      let t ← parseTable tb
+      let segs ← parseSegs sg
+      let len := coordLen t
+      pure s!"{b2s (greedyOKB t len segs)} {b2s (segmentsOKB t len segs)}"
+    | _ => none
+  | "fromsegs" =>
+    -- n | inverse | segs | table  → node table kept when slicing the implementation's own segment list
+    match sections rest with
+    | [ns, iv, sg, tb] => do
+      let t ← parseTable tb
+      let n ← parseNArg ns
+      let segs ← parseSegs sg
+      match pickSegs .lt 1 segs n with
+      | some sel => pure (showTopo (longestFromSegs t sel (iv == "1")))
+      | none => pure "ERR"
+    | _ => none
+  | "fluff" =>
+    -- keepsize nlargest|_ | kept | table
+    match sections rest with
+    | [a, k, tb] => do
+      let t ← parseTable tb
+      let kept ← intList? k
+      match words a with
+      | [ks, nl] => do
+        let ks ← ks.toNat?
+        let nl ← optInt nl
+        pure (b2s (dropFluffOKB t ks (nl.map Int.toNat) kept))
+      | _ => none
+    | _ => none
+  | "silist" =>
+    -- max | sel
+    match sections rest with
+    | [m, sl] => do
+      let m ← m.toInt?
+      let sel ← parseSelX sl
+      match siListX m sel with
+      | some l => pure (showInts l)
+      | none => pure "ERR"
+    | _ => none
   | _ => none
 
 end Navis.Drv.C12Ext
